@@ -334,3 +334,90 @@ class NoOutputCheck:
             rec['violations'] = [{'rule': out[0].upper(), 'what': out[1], 'input': s.msg.hex(), 'device': 'TR', 'script': None, 'writer': 'pass', 'role': out[0].upper()}]
         rec['sample'] = {'message': repr(s.msg)}
         return rec
+
+
+class CompoundResponseCheck:
+    """C04 'in execution order ... then a newline and a flush': messages of 2..3 units out of {RBO?, RU8?, RST?, RT2?, CMD, ZZ (undefined), RU8? 1 (rejected)}
+    through the pass-through writer; every successful query's response is followed by its own newline and its own flush before
+    the next unit writes anything; nothing is written for the other units.  Return values are the handlers' defaults except RST?
+    (a symbolic 1-byte string)."""
+    UNITS = [('RBO?', 'q'), ('RU8?', 'q'), ('RST?', 'q'), ('RT2?', 'q'), ('CMD', 'c'), ('ZZ', 'x'), ('RU8? 1', 'x')]
+
+    def __init__(s, world, params):
+        s.w, s.ex = world, world.ex
+        s.k = params.get('k', 3)
+        s.twin = params.get('twin', False)
+
+    def body(s):
+        ex, w = s.ex, s.w
+        n = ex.decide([(i, True) for i in range(2, s.k + 1)]) if s.k > 2 else 2
+        picks = [ex.decide([(i, True) for i in range(len(s.UNITS))]) for _ in range(n)]
+        trailing = ex.decide([(0, True), (1, True)]) == 1          # message ends with ';' before the terminator
+        msg = ';'.join(s.UNITS[i][0] for i in picks) + (';' if trailing else '') + '\n'
+        s.msg = msg
+        dev = w.new_device('TR')
+        wr = PassWriter()
+        # the reference: each query alone gives its response (checked against the encoder by ResponseCheck)
+        exp_segments = []
+        cut = None              # number of response segments in front of the first faulty unit (C06: the units after it run all or not at all)
+        for i in picks:
+            if s.UNITS[i][1] == 'q':
+                d2 = w.new_device('TR')
+                w2 = PassWriter()
+                w.run(d2, list((s.UNITS[i][0] + '\n').encode()), w2)
+                exp_segments.append(list(w2.items))
+            elif s.UNITS[i][1] == 'x' and cut is None:
+                cut = len(exp_segments)
+        w.run(dev, list(msg.encode()), wr)
+        out = list(wr.items)
+        exp = [x for seg in exp_segments for x in seg]
+        if s.twin:
+            exp = exp + [10]
+        viol = None
+        eq, m = sym_equal(ex, tuple(flat_item(x) for x in out), tuple(flat_item(x) for x in exp))
+        if not eq and cut is not None and not s.twin:
+            exp_segments = exp_segments[:cut]
+            exp = [x for seg in exp_segments for x in seg]
+            eq, m = sym_equal(ex, tuple(flat_item(x) for x in out), tuple(flat_item(x) for x in exp))
+        if not eq:
+            viol = (f'output {show(out)} differs from the responses of the queries one by one {show(exp)}', m)
+        else:
+            # flush discipline: walk the writer calls; after the bytes of segment j have been written the next call must be a flush
+            pos, seg, bounds = 0, 0, []
+            total = 0
+            for sg in exp_segments:
+                total += len(sg)
+                bounds.append(total)
+            written = 0
+            need_flush = False
+            for op in wr.ops:
+                if op == ('F',):
+                    if not need_flush:
+                        viol = (f'a flush that does not follow a complete response: writer calls {wr.ops}', None)
+                        break
+                    need_flush = False
+                else:
+                    if need_flush:
+                        viol = (f'the response of a query was not flushed before the next unit wrote: writer calls {wr.ops}', None)
+                        break
+                    written += op[1] if len(op) > 1 else 1
+                    if written in bounds:
+                        need_flush = True
+            if viol is None and need_flush:
+                viol = (f'the last response was not flushed: writer calls {wr.ops}', None)
+        return {'viol': viol, 'msg': msg}
+
+    def on_leaf(s, out):
+        rec = {'kind': out[0]}
+        v = None
+        if out[0] == 'ok':
+            v = out[1]['viol']
+            rule = 'TWIN' if s.twin else 'COMPOUND'
+        else:
+            v = (out[1], None)
+            rule = out[0].upper()
+        if v:
+            rec['violations'] = [{'rule': rule, 'what': f'{s.msg!r}: {v[0]}', 'input': s.msg.encode().hex(), 'device': 'TR', 'script': {}, 'writer': 'pass', 'role': f'{rule}:flush-or-order'}]
+        if hash(tuple(map(str, s.ex.decisions))) % 37 == 0:
+            rec['sample'] = {'message': s.msg}
+        return rec
